@@ -186,7 +186,7 @@ void schedule(Th* me, const char* what, uintptr_t addr, bool exiting = false) {
             char lb[96]; lb[0] = 0;
             if (pmc_verbose()) snprintf(lb, sizeof lb, "T%d(%s) %s %lx%s", me->id, me->name, what, (unsigned long)addr, me_enabled ? "" : " [blocked]");
             idx = pmc_choose(n, PMC_SCHED, me_enabled ? 1 : 0, lb);
-        }
+        } else if (pmc_verbose() && n == 1) pmc_log("          (no choice) T%d(%s) %s %lx%s -> T%d", me->id, me->name, what, (unsigned long)addr, me_enabled ? "" : " [blocked]", list[0]->id);
         Th* next = list[idx];
         for (int i = 0; i < NT; i++) TH[i].spinning_forced = false;
         if (next == me) {
